@@ -2,7 +2,25 @@ import gfapy
 
 class References:
 
+  def _check_segment_references(self):
+    # both sides are checked before anything is created or changed for one
+    # of them (placeholders of other lines would else be replaced by
+    # placeholder segments, also if the line is then refused)
+    for snum in [1, 2]:
+      ref = self.get("sid{}".format(snum))
+      if ref.orient not in ["+", "-"]:
+        raise gfapy.FormatError(
+          "Line: {}\n".format(str(self))+
+          "sid{} is not an oriented segment identifier".format(snum))
+      line = self._gfa.line(ref.line)
+      if line is not None and not line.virtual and line.record_type != "S":
+        raise gfapy.NotUniqueError(
+          "Line: {}\n".format(str(self))+
+          "sid{} is the identifier of a line of type {}".format(snum,
+            line.record_type))
+
   def _initialize_references(self):
+    self._check_segment_references()
     st1 = self._substring_type(self.beg1, self.end1)[0]
     st2 = self._substring_type(self.beg2, self.end2)[0]
     for snum in [1, 2]:
